@@ -28,7 +28,7 @@ def atom_id(a):
         parts.append("notail")
     if a.get("cmname"):
         parts.append("cm-" + a["cmname"])
-    for k in ("min", "max", "term", "vlen", "sidx"):
+    for k in ("min", "max", "term", "vlen", "sidx", "slen"):
         if a.get(k) is not None:
             parts.append(f"{k}{a[k]}")
     return "/".join(parts)
@@ -72,6 +72,23 @@ def the_value(sx, a):
         return sx.bytes("v", a["vlen"])
     if dtp in ("A_FLOAT32", "A_FLOAT64"):
         return sx.float64("v", allow_nan=False)
+    if a.get("slen") is not None:
+        # a symbolic string: "the text whose encoding under the description's codec is these
+        # (symbolic) bytes", for every byte string that is valid under the codec
+        from symx import strings
+        codec = odxref.codec_of(dtp, a.get("enc") if a.get("dct", "std") != "leading" else None,
+                                a.get("hl") in (None, True))
+        raw = sx.bytes("v", a["slen"])
+        if sx.sym:
+            if not a["slen"]:
+                return ""
+            sx.assume(core.mkbool(strings.valid_term(list(raw.items), strings._norm(codec))))
+            return strings.SymStr(list(raw.items), strings._norm(codec))
+        try:
+            return bytes(raw).decode(codec)
+        except UnicodeDecodeError:
+            from symx.explore import AssumptionFailed
+            raise AssumptionFailed("not a valid string")
     return STRING_CATALOGUE[a["sidx"]]
 
 
@@ -575,6 +592,22 @@ def atoms(tier, seed):
                     for hl in ((True, False) if dtp == "A_UNICODE2STRING" else (True,)):
                         out.append(dict(dt=dtp, enc=enc, bl=bl, bitpos=0, hl=hl, bytepos=None,
                                         sidx=sidx))
+    # symbolic strings (every valid text of each byte length)
+    for dtp, encs in (("A_ASCIISTRING", [None]), ("A_UTF8STRING", [None]),
+                      ("A_UNICODE2STRING", [None, "UTF-8", "ISO-8859-2", "WINDOWS-1252"])):
+        for enc in encs:
+            for hl in ((True, False) if dtp == "A_UNICODE2STRING" and enc is None else (True,)):
+                for slen in (0, 1, 2, 3, 4):
+                    for bl in (16, 32):
+                        if abs(bl // 8 - slen) > 1 and slen not in (0,):
+                            continue
+                        out.append(dict(dt=dtp, enc=enc, bl=bl, bitpos=0, hl=hl, bytepos=None,
+                                        slen=slen))
+                    if enc is None:
+                        out.append(dict(dt=dtp, enc=None, dct="minmax", min=0, max=4, term="ZERO",
+                                        tail=True, bitpos=0, bytepos=None, hl=hl, slen=slen))
+                        out.append(dict(dt=dtp, enc=None, dct="leading", bl=8, bitpos=0,
+                                        bytepos=None, hl=hl, slen=slen))
     # DOPs with compu methods (see run_cmatom)
     for name, (it, pt, cmspec, _) in CM_ATOMS.items():
         for bl, bitpos, hl in (((16, 3, False),) if tier == "quick" else
@@ -619,7 +652,7 @@ def atoms(tier, seed):
     if tier == "quick":
         # seeded sample of the full product; all boundary members are kept
         def boundary(a):
-            return (a.get("cmname") is not None or
+            return (a.get("cmname") is not None or a.get("slen") is not None or
                     (a["dt"] not in INT_TYPES and a.get("dct", "std") == "std") or
                     a.get("enc") in ("BCD-P", "BCD-UP") or
                     (a["dt"] in INT_TYPES and a["bl"] in (1, 2, 8, 64) and a["bitpos"] in (0, 7)
@@ -627,9 +660,10 @@ def atoms(tier, seed):
         keep = [a for a in out if boundary(a)]
         rest = [a for a in out if not boundary(a)]
         rnd.shuffle(rest)
-        strs = [a for a in keep if a["dt"] in odxref.STRINGS]
+        strs = [a for a in keep if a["dt"] in odxref.STRINGS and a.get("slen") is None]
         rnd.shuffle(strs)
-        keep = [a for a in keep if a["dt"] not in odxref.STRINGS] + strs[:60]
+        keep = [a for a in keep if a["dt"] not in odxref.STRINGS or a.get("slen") is not None] + \
+            strs[:60]
         out = keep + rest[:len(rest) // 2]
     return out
 
@@ -645,7 +679,7 @@ def configs_for(prop, tier, seed):
         c["prop"] = prop
         c["harness"] = "atom"
         c["id"] = "atom/" + atom_id(a)
-        c["build"] = {k: v for k, v in a.items() if k not in ("vlen", "sidx")}
+        c["build"] = {k: v for k, v in a.items() if k not in ("vlen", "sidx", "slen")}
         c["tail"] = a.get("tail", True)
         if a["dt"] == "A_UINT32" and a.get("enc") == "BCD-P":
             c["W"] = 48
